@@ -23,7 +23,7 @@ func init() { fw.Register(c05{}) }
 func (c05) ID() string    { return "C05" }
 func (c05) Level() string { return "exploration" }
 func (c05) Rule() string {
-	return "unit = (corpus state, text query): histories of 20 batches that insert, rewrite, blank out (only stop words / punctuation / empty) and delete text fields over a 42-word vocabulary with stop words, mixed case and unicode; after every batch queries with 1..5 terms, repeated terms, stop-word-only, mixed case, both operators, limits 1..75, weights and model-evaluated pre-filters. Oracle: independent tf-idf (same bleve standard analyser instance in the harness, own N/df/tf/len bookkeeping), tie-aware top-limit cut, hybrid = weight*score. Non-trivial = at least two matches with different scores, or the cut removes something; distinct by (corpus digest, request)."
+	return "unit = (corpus state, text query): histories of 20 batches that insert, rewrite, blank out (only stop words / punctuation / empty) and delete text fields over a 48-word vocabulary with stop words, mixed case, unicode and words that differ only within a case-folding orbit (µm/μm, ſeven/seven), plus near rewrites (case only, fold-orbit rune swaps, spacing only); after every batch queries with 1..5 terms, repeated terms, stop-word-only, mixed case, both operators, limits 1..75, weights and model-evaluated pre-filters. Oracle: independent tf-idf (same bleve standard analyser instance in the harness, own N/df/tf/len bookkeeping), tie-aware top-limit cut, hybrid = weight*score. Non-trivial = at least two matches with different scores, or the cut removes something; distinct by (corpus digest, request)."
 }
 func (c05) Assumptions() []string {
 	return []string{"the analyser (bleve standard) is trusted; the property is about the index", "a containsAll query that analyses to zero terms may return nothing or everything (both readings accepted, counted)", "score tolerance 4*k*2^-24*sum|term contributions| for k query terms (map iteration order of the summation)"}
